@@ -37,6 +37,7 @@ type harnessOut struct {
 	WallS           float64               `json:"wall_s"`
 	Samples         [][]gosym.ReplayValue `json:"samples"`
 	Fallbacks       map[string]int        `json:"fallbacks,omitempty"`
+	ForkSites       map[string]int        `json:"fork_sites,omitempty"`
 }
 
 type output struct {
@@ -126,7 +127,7 @@ func main() {
 			PathsBlocked: r.PathsBlocked, Obligations: r.Obligations, Discharged: r.Discharged, DischargedBySMT: r.DischargedBySMT,
 			Reached: r.Reached, Violations: r.Violations, Inconclusive: r.Inconclusive, Queries: r.Queries,
 			SolverTimeS: r.SolverTime.Seconds(), Branches: r.Branches, IfConverted: r.IfConverted, Steps: r.Steps,
-			MaxDecisions: r.MaxDecisions, WallS: time.Since(t0).Seconds(), Samples: r.SampleInputs, Fallbacks: r.Fallbacks}
+			MaxDecisions: r.MaxDecisions, WallS: time.Since(t0).Seconds(), Samples: r.SampleInputs, Fallbacks: r.Fallbacks, ForkSites: r.ForkSites}
 		for f := range r.Funcs {
 			ho.Funcs = append(ho.Funcs, f)
 		}
